@@ -986,7 +986,11 @@ func addSeq[T any](in inst[T]) {
 	}
 	width := erase(in).width
 	seqTable = append(seqTable, entry{in.name, in.site, in.combs, func(w *vrt.W, i int, r *rand.Rand, loc *local) { seqCase(w, i, r, loc, in, width) }})
+	foldTable = append(foldTable, entry{in.name, in.site, in.combs, func(w *vrt.W, i int, r *rand.Rand, loc *local) { foldCase(w, i, r, loc, in) }})
 }
+
+// foldTable: the same monoids, run as fold histories (folds.go)
+var foldTable []entry
 
 // the leaf instances referred to by the generated per-arity tables
 var (
@@ -1230,21 +1234,47 @@ func main() {
 		}
 		return 5000
 	}
+	// batch layout: [classic | fold histories (folds.go) | distinguishable failures (tryerr.go)];
+	// the new families are appended so that the PRNG streams of the classic batches did not move
+	layout := func(tier string) (classic, folds, tryerr, foldCases, tryCases int) {
+		if tier == "thorough" {
+			return 128, 32, 16, 500, 4000
+		}
+		return 32, 8, 4, 250, 2000
+	}
 	vrt.Main(vrt.Config{
 		Property: "C11",
 		Batches: func(tier string) int {
-			if tier == "thorough" {
-				return 128
-			}
-			return 32
+			c, f, t, _, _ := layout(tier)
+			return c + f + t
 		},
-		Cases: func(tier string, b int) int { return perBatch(tier) },
+		Cases: func(tier string, b int) int {
+			c, f, _, fc, tc := layout(tier)
+			switch {
+			case b < c:
+				return perBatch(tier)
+			case b < c+f:
+				return fc
+			}
+			return tc
+		},
 		Run: func(w *vrt.W) {
 			loc := &local{c: map[string]int64{}}
 			pb := perBatch(w.Tier)
+			classic, foldB, _, foldCases, tryCases := layout(w.Tier)
 			for i := w.From; i < w.To; i++ {
-				g := w.Batch*pb + i
 				r := w.Rand(i)
+				if w.Batch >= classic+foldB {
+					g := (w.Batch-classic-foldB)*tryCases + i
+					tryErrTable[g%len(tryErrTable)](w, i, r, loc)
+					continue
+				}
+				if w.Batch >= classic {
+					g := (w.Batch-classic)*foldCases + i
+					foldTable[g%len(foldTable)].run(w, i, r, loc)
+					continue
+				}
+				g := w.Batch*pb + i
 				switch slot := g % 8; slot {
 				case 7:
 					e := seqTable[(g/8)%len(seqTable)]
@@ -1266,14 +1296,18 @@ func main() {
 			for _, k := range ks {
 				w.Add(k, loc.c[k])
 			}
+			if gcBarrierTimeouts > 0 {
+				w.Add("folds.barrier_timeouts", gcBarrierTimeouts)
+			}
 		},
-		Rule: "Of every 8 cases 6 are law cases, 1 a history case, 1 a sequence case; instances are taken round-robin from a table of instance expressions (all leaves of package monoid/semigroup/fp at several widths, every combinator alone and nested, every wrapper Option/Try/Ptr/Eval/Dual/IMap over every container instance and over inner instances whose Empty is nil/zero-like and over some whose Empty is not the zero value, every Tuple arity 2..21 with three component patterns). Law case: a PRNG triple (a,b,c) (operands are the identity with probability 1/8 each, b=a with 1/10; integers include arbitrary bit patterns so overflow occurs; maps/sets draw keys from a 5..8 element universe so they overlap; Endo values are affine/constant/shift/permutation functions compared on 16 points; fp.Map/fp.Set compared by iterated content; nil ≡ empty); in 1 of 5 law cases every container-valued leaf (String, MergeSeq/Slice/GoMap/Map/Set, also inside wrappers/tuples/hlists) of the three operands is drawn with an exact size from the shapes tiny(1..5)/large/tiny, large/tiny/large, equal large, tiny/tiny/large, large/large/tiny, independent, large ∈ {15,16,17,31,32,33,63,64,65,100,128,129,257,1000} (bounded by 1300 entries per operand over all leaves), keys/elements of all three from one universe of 1.25×max so that a key of a small operand lies in a large one with p≈0.8, values drawn independently so that bias on shared keys shows. Checked: Combine(x,y) renders as the plain-Go reference of the named behaviour for the four pairs (a,b),(b,c),(ab,c),(a,bc), evaluated in one of three orders so that a result is also the left/right operand of the very next Combine; Combine(Combine(a,b),c) = Combine(a,Combine(b,c)) (not for float instances); Empty() as named; Combine(Empty,x)=x=Combine(x,Empty) for x in {a,c,Combine(a,b)}; the Empty() value used as operand and the next Empty() still render as named; arguments unchanged; all four results re-read after all later Combines. History case: the instance expression is built twice by new constructor calls (#0,#1) and the table's long-lived instance is #2; 3..6 inputs (1 in 3 cases with tiny/large sizes as above) and the Empty() of each instance are kept; 6..20 PRNG steps Combine kept values on a PRNG instance (mostly the previous one): latest result as left operand, as right operand, the previous left operand once more, a result with itself, a kept Empty() value on either side, two earlier results, any two kept values; results are kept as returned. Before a step the operands are re-rendered and must equal the reference rendering recorded when they were made, the expectation is the plain-Go reference on them, after the step the operands are re-rendered, at a PRNG midpoint and at the end every kept value is, and at the end every kept and a new Empty() of every instance must be a two-sided identity of a kept value. Sequence case: a PRNG sequence (length 0,1,2, 3..32, a boundary length from {15,16,17,31,32,33,63,64,65,100,127,128,129,255,256,257,1000}, 40..240, 300..1000, thorough 300..1800) over one of the lawful monoids of the table, most of them non-commutative; elements as drawn by the ordinary generators, or (1 in 4) 'growing': 1..4 entries each over a universe of 40..340 keys so that the accumulator grows through 16/32/64/128/256 entries, or (1 in 4, length ≤ 24) 'lopsided': tiny and large elements mixed; seq.Reduce, iterator.Reduce (FromSeq / Of / MakeIterator sources), list.Reduce (FromSeq / Of / cons-built lists), seq.FoldMap and list.FoldMap must render like the plain loop acc = Combine(acc, x) from Empty(), and the plain loop run again afterwards gives the same. distinct_nontrivial counts distinct fingerprints of (instance, a, b, c) with no operand equal to the identity and not a=b=c, plus (monoid, sequence) with ≥ 3 elements whose reversed fold differs from the fold (the order of combination shows in the result), plus (instance, inputs, script) of histories in which results were fed back both as left and as right operands.",
+		Rule: "Of every 8 cases 6 are law cases, 1 a history case, 1 a sequence case; instances are taken round-robin from a table of instance expressions (all leaves of package monoid/semigroup/fp at several widths, every combinator alone and nested, every wrapper Option/Try/Ptr/Eval/Dual/IMap over every container instance and over inner instances whose Empty is nil/zero-like and over some whose Empty is not the zero value, every Tuple arity 2..21 with three component patterns). Law case: a PRNG triple (a,b,c) (operands are the identity with probability 1/8 each, b=a with 1/10; integers include arbitrary bit patterns so overflow occurs; maps/sets draw keys from a 5..8 element universe so they overlap; Endo values are affine/constant/shift/permutation functions compared on 16 points; fp.Map/fp.Set compared by iterated content; nil ≡ empty); in 1 of 5 law cases every container-valued leaf (String, MergeSeq/Slice/GoMap/Map/Set, also inside wrappers/tuples/hlists) of the three operands is drawn with an exact size from the shapes tiny(1..5)/large/tiny, large/tiny/large, equal large, tiny/tiny/large, large/large/tiny, independent, large ∈ {15,16,17,31,32,33,63,64,65,100,128,129,257,1000} (bounded by 1300 entries per operand over all leaves), keys/elements of all three from one universe of 1.25×max so that a key of a small operand lies in a large one with p≈0.8, values drawn independently so that bias on shared keys shows. Checked: Combine(x,y) renders as the plain-Go reference of the named behaviour for the four pairs (a,b),(b,c),(ab,c),(a,bc), evaluated in one of three orders so that a result is also the left/right operand of the very next Combine; Combine(Combine(a,b),c) = Combine(a,Combine(b,c)) (not for float instances); Empty() as named; Combine(Empty,x)=x=Combine(x,Empty) for x in {a,c,Combine(a,b)}; the Empty() value used as operand and the next Empty() still render as named; arguments unchanged; all four results re-read after all later Combines. History case: the instance expression is built twice by new constructor calls (#0,#1) and the table's long-lived instance is #2; 3..6 inputs (1 in 3 cases with tiny/large sizes as above) and the Empty() of each instance are kept; 6..20 PRNG steps Combine kept values on a PRNG instance (mostly the previous one): latest result as left operand, as right operand, the previous left operand once more, a result with itself, a kept Empty() value on either side, two earlier results, any two kept values; results are kept as returned. Before a step the operands are re-rendered and must equal the reference rendering recorded when they were made, the expectation is the plain-Go reference on them, after the step the operands are re-rendered, at a PRNG midpoint and at the end every kept value is, and at the end every kept and a new Empty() of every instance must be a two-sided identity of a kept value. Sequence case: a PRNG sequence (length 0,1,2, 3..32, a boundary length from {15,16,17,31,32,33,63,64,65,100,127,128,129,255,256,257,1000}, 40..240, 300..1000, thorough 300..1800) over one of the lawful monoids of the table, most of them non-commutative; elements as drawn by the ordinary generators, or (1 in 4) 'growing': 1..4 entries each over a universe of 40..340 keys so that the accumulator grows through 16/32/64/128/256 entries, or (1 in 4, length ≤ 24) 'lopsided': tiny and large elements mixed; seq.Reduce, iterator.Reduce (FromSeq / Of / MakeIterator sources), list.Reduce (FromSeq / Of / cons-built lists), seq.FoldMap and list.FoldMap must render like the plain loop acc = Combine(acc, x) from Empty(), and the plain loop run again afterwards gives the same. distinct_nontrivial counts distinct fingerprints of (instance, a, b, c) with no operand equal to the identity and not a=b=c, plus (monoid, sequence) with ≥ 3 elements whose reversed fold differs from the fold (the order of combination shows in the result), plus (instance, inputs, script) of histories in which results were fed back both as left and as right operands. Appended batch families (the classic PRNG streams are unchanged): FOLD HISTORIES over the same monoids (length 0..1, 2..15 or a boundary length up to 100): one to three phases in PRNG order; a panic phase runs one fold (list.Reduce/FoldMap 5 in 8) over a PRNG source in which Combine, f or the instrumented element source (fp.MakeIterator, iter.Seq below iterator.Pull, list.Generate) panics at a PRNG call, recovered by the harness, and then immediately, same goroutine, no forced collection in between, 6..9 ordinary folds with the library's own instance: all five implementations and the plain Combine loop in PRNG order plus repeats, over the same and over a second short sequence; a source phase builds one PRNG source for each of the five implementations (half of the draws pull-based: iterator.Pull over slices.Values / an own iter.Seq / indices mapped by f, iterator.Pull(..).ToSeq(), seq.Collect, list.Collect over a pull iterator, list.Map over it; others FromSeq/Of/FromSlice/FromList/MakeIterator/Apply chains/list.Generate/sub-slices; Go-map backed FromMapKey/FromMapValue when the monoid is commutative or there is at most one element) plus 3..5 folds over Go-map backed sources of a 2..130 entry map[int]int (iterator.FromMap/FromMapKey/FromMapValue, fp.IteratorOfGoMap, mutable.MapOf(..).Keys(), mutable.SetOf(..).Iterator(), list.FromMap/FromMapKey/FromMapValue; Sum of keys/values or MergeGoMap of singleton maps, compared order-insensitively), THEN runs a collection barrier (two runtime.GC, each followed by waiting for a sentinel finalizer, runtime.Gosched), then consumes them one after the other, half of them with another barrier from inside Combine / f / the source at a PRNG call in the middle; every result must equal the plain left fold of the reference elements. DISTINGUISHABLE FAILURES: 9 instance expressions over monoid.Try(monoid.String) (Try, Dual(Try), Option(Try), IMap(Try), Dual(IMap(Try)), IMap(Dual(Try)), Dual(Dual(Try)), Dual(Option(Try)), Option(Dual(Try))), sequences of 0..65 elements in which one element in 2/3/5/12 is a failure carrying one of 2..5 error values of the case (distinct pointers, half of them with the same message, some comparable non-pointer values), None elements for the Option instances; Combine on neighbouring pairs, associativity on neighbouring triples, the plain Combine loop and the five Reduce/FoldMap implementations (PRNG slice / pull / list sources, handed the library's own instance value) are compared with a plain-Go model (None absorbs, else the left operand's failure, else the right one's, else concatenation; operands flipped under an odd number of Dual) with the surviving error compared by identity. distinct_nontrivial also counts fold histories of ≥ 2 elements with a recovered panic or a pull-based source consumed across a collection (fingerprint: monoid, elements, script) and failure sequences whose first and last failure carry different errors and contain no None.",
 		Assumptions: []string{
 			"floating-point Sum/Product are checked for named behaviour and identity only (associativity does not hold for floats and is not demanded)",
 			"an instance is an object whose Combine/Empty are functions of the VALUES of their operands: results may alias operands (Combine(a,Empty) may return a itself) but no call may change what an operand, an earlier result or an Empty() value renders as; two instances of one expression are interchangeable, also within one history",
 			"functions (Endo) are compared extensionally on a fixed 16-point domain",
 			"fp.Map / fp.Set operands are built with hash.String / hash.Number, with a case-insensitive hasher (own instance entries, compared modulo that equivalence) or are the zero value; all operands of one triple use the same hasher",
-			"monoid.Try: any failure counts as the absorbing element, which error survives is not compared",
+			"monoid.Try in law, history and sequence cases: any failure counts as the absorbing element, which error survives is not compared there. The distinguishable-failure cases compare it: monoid.Try(m).Combine is try.Map2(a, b, m.Combine) and keeps the failure of its LEFT operand (a left fold: the first failure of the sequence), Dual flips that (last failure), Option's None absorbs on either side, IMap transports; surviving errors are compared by == (pointer identity for the harness's pointer-typed errors)",
+			"a panic raised by a user callback (f, Combine, the element source) inside a fold and recovered by the caller is an ordinary event of a process: folds that run afterwards must still equal the plain left fold; the garbage collector may run (and finalizers may be run) between any two steps, also between building an iterator/list and consuming it and in the middle of a fold; a Go map is enumerated in arbitrary order, so sources backed by a map of more than one entry are only compared where the order cannot show (commutative monoid, sum of keys, union of singleton maps with distinct keys)",
 			"monoid.Future is not covered here (future combinators are the subject of C06)",
 			"Reduce/FoldMap are compared with the left fold only for lawful monoids (list.Reduce/FoldMap associate to the right, which is the same value exactly when the monoid is lawful)",
 		},
@@ -1314,11 +1348,43 @@ func main() {
 					f[k] *= 10
 				}
 			}
+			// fold histories and distinguishable failures (appended batch families; thorough runs 8x the cases)
+			g := map[string]int64{"foldcases": 1500, "foldcases.nontrivial": 1200, "foldcases.with_recovered_panic": 1000, "foldcases.with_sources_and_collections": 1000,
+				"folds.recovered_panic": 1200, "folds.recovered_panic.in_Combine": 600, "folds.recovered_panic.in_f": 150, "folds.recovered_panic.in_source": 200,
+				"folds.recovered_panic.list.Reduce": 250, "folds.recovered_panic.list.FoldMap": 300, "folds.after_panic": 8000,
+				"folds.barrier_between_construction_and_consumption": 1000, "folds.barrier_in_the_middle_of_consumption": 3000,
+				"folds.pull_based_source": 2500, "folds.over_sources": 5000, "folds.over_go_map_sources": 3000,
+				"foldsrc.iterator.Reduce over iterator.Pull(slices.Values)": 100, "foldsrc.iterator.Reduce over iterator.Pull(iter.Seq)": 100,
+				"foldsrc.iterator.Reduce over iterator.Map(iterator.Pull(indices))": 100, "foldsrc.list.Reduce over list.Collect(iterator.Pull)": 150,
+				"foldsrc.list.FoldMap over list.Collect(iterator.Pull(indices))": 200, "foldsrc.seq.Reduce over iterator.Pull(..).ToSeq()": 200,
+				"foldsrc.iterator.Reduce over mutable.MapOf(go map).Keys()": 200, "foldsrc.iterator.Reduce over mutable.SetOf(keys).Iterator()": 200,
+				"foldsrc.iterator.Reduce over iterator.FromMapKey(go map)": 200, "foldsrc.iterator.Reduce over iterator.Map(iterator.FromMap(go map), singleton map)": 200,
+				"foldsrc.list.FoldMap over list.FromMap(go map)": 200, "foldsrc.list.Reduce over list.FromMapKey(go map)": 200,
+				"tryerr.cases": 6000, "tryerr.first_and_last_failure_differ": 1500, "tryerr.pairs_of_two_distinct_failures": 1500,
+				"tryerr.sequences_with_two_distinguishable_failures": 2500, "tryerr.triples": 20000}
+			for _, site := range implSite {
+				g["folds.after_panic."+site] = 1000
+				g["tryerr.folds."+site] = 6000
+			}
+			for _, e := range foldTable {
+				g["foldinst."+e.name] = 50
+			}
+			for _, n := range tryErrNames {
+				g["tryerrinst."+n] = 500
+			}
+			for k, v := range g {
+				if tier == "thorough" {
+					v *= 6
+				}
+				f[k] = v
+			}
 			return f
 		},
 		Finish: func(tier string, m *vrt.Merged, cov map[string]any) {
 			cov["instance_expressions"] = len(lawTable)
 			cov["reduce_monoids"] = len(seqTable)
+			cov["fold_history_monoids"] = len(foldTable)
+			cov["distinguishable_failure_instances"] = tryErrNames
 			hit, hist, sized, sizedHit := 0, 0, 0, 0
 			for _, d := range lawTable {
 				if m.Counters["inst."+d.name] > 0 {
